@@ -162,6 +162,29 @@ func tagHolds(x ssa.Value, blk *ssa.BasicBlock) map[string]bool {
 		}
 		check(c)
 	}
+	// the same element of a list read a second time (statements[n-1] tested, then statements[n-1]
+	// asserted): a list that the function does not store into holds the same value at the same index
+	if ld, ok := x.(*ssa.UnOp); ok && len(out) == 0 {
+		if ia, ok := ld.X.(*ssa.IndexAddr); ok && notStoredInto(ia.X) && ia.X.Referrers() != nil {
+			for _, r := range *ia.X.Referrers() {
+				ia2, ok := r.(*ssa.IndexAddr)
+				if !ok || ia2 == ia || !sameIndexValue(ia.Index, ia2.Index) || ia2.Referrers() == nil {
+					continue
+				}
+				for _, r2 := range *ia2.Referrers() {
+					ld2, ok := r2.(*ssa.UnOp)
+					if !ok || ld2.Referrers() == nil {
+						continue
+					}
+					for _, r3 := range *ld2.Referrers() {
+						if c, ok := r3.(*ssa.Call); ok && c.Call.IsInvoke() && c.Call.Method.Name() == "StatementType" && c.Call.Value == ssa.Value(ld2) {
+							check(c)
+						}
+					}
+				}
+			}
+		}
+	}
 	if p, isParam := x.(*ssa.Parameter); isParam && len(out) == 0 {
 		// the handler of a dispatch table entered under its key (an/tabledispatch.go)
 		if ts := tableEntryTags(p); len(ts) > 0 {
@@ -202,6 +225,42 @@ func tagHolds(x ssa.Value, blk *ssa.BasicBlock) map[string]bool {
 		}
 	}
 	return out
+}
+
+// notStoredInto: no element of the list is assigned in the function that reads it (a parameter
+// or a local list that is only read).
+func notStoredInto(list ssa.Value) bool {
+	if list.Referrers() == nil {
+		return false
+	}
+	for _, r := range *list.Referrers() {
+		if ia, ok := r.(*ssa.IndexAddr); ok && ia.Referrers() != nil {
+			for _, rr := range *ia.Referrers() {
+				if st, ok := rr.(*ssa.Store); ok && st.Addr == ssa.Value(ia) {
+					return false
+				}
+			}
+		}
+	}
+	return true
+}
+
+// sameIndexValue: the same value, or the same constant, or the same operation on the same values.
+func sameIndexValue(a, b ssa.Value) bool {
+	if a == b {
+		return true
+	}
+	ka, ok1 := a.(*ssa.Const)
+	kb, ok2 := b.(*ssa.Const)
+	if ok1 && ok2 {
+		return ka.Value != nil && kb.Value != nil && ka.Value.ExactString() == kb.Value.ExactString()
+	}
+	ba, ok1 := a.(*ssa.BinOp)
+	bb, ok2 := b.(*ssa.BinOp)
+	if ok1 && ok2 && ba.Op == bb.Op {
+		return sameIndexValue(ba.X, bb.X) && sameIndexValue(ba.Y, bb.Y)
+	}
+	return false
 }
 
 // concreteTypes: the set of concrete types a value of interface type can hold,
@@ -618,6 +677,64 @@ func indexDischarged(fn *ssa.Function, blk *ssa.BasicBlock, base, index ssa.Valu
 			return false
 		}
 		return c.Call.Args[0] == base || rootOf(c.Call.Args[0], 0) == baseRoot
+	}
+	// 0. the same element was read before on every way here (the list is not stored into in
+	// between): this access cannot be the first one to fail; the earlier one is judged on its own.
+	// "On every way here": an identical access in a dominating block, or a flag tested true that is
+	// false on every way that did not pass an identical access (ok := n > 0 && l[n-1].is…; if ok { l[n-1] })
+	if kind == "index" && notStoredInto(base) && base.Referrers() != nil {
+		var same []*ssa.IndexAddr
+		for _, r := range *base.Referrers() {
+			if ia2, ok := r.(*ssa.IndexAddr); ok && sameIndexValue(index, ia2.Index) {
+				same = append(same, ia2)
+			}
+		}
+		passed := func(b *ssa.BasicBlock, before ssa.Value) bool {
+			for _, ia2 := range same {
+				if ia2.Index == before {
+					continue
+				}
+				if ia2.Block() != b && ia2.Block().Dominates(b) {
+					return true
+				}
+			}
+			return false
+		}
+		if passed(blk, nil) {
+			// (an identical access in the same block is the access itself or a later one: not counted)
+			return true
+		}
+		for d := blk; d != nil; d = d.Idom() {
+			par := d.Idom()
+			if par == nil {
+				break
+			}
+			c, neg := condOf(par)
+			ph, isPhi := c.(*ssa.Phi)
+			if !isPhi || neg || len(par.Succs) != 2 || !par.Succs[0].Dominates(blk) || len(par.Succs[0].Preds) != 1 {
+				continue
+			}
+			okAll, n := true, 0
+			for i, e := range ph.Edges {
+				if k, isK := e.(*ssa.Const); isK && k.Value != nil && k.Value.String() == "false" {
+					continue
+				}
+				n++
+				p := ph.Block().Preds[i]
+				inP := false
+				for _, ia2 := range same {
+					if ia2.Block() == p {
+						inP = true
+					}
+				}
+				if !inP && !passed(p, nil) {
+					okAll = false
+				}
+			}
+			if okAll && n > 0 {
+				return true
+			}
+		}
 	}
 	// 1. range index: index = phi+1 compared (<) with len(base)
 	if bo, ok := index.(*ssa.BinOp); ok && bo.Op == token.ADD {
